@@ -6,6 +6,10 @@ NOTES = ("Static analysis only: every check parses /repo's current working tree 
          "exit 0 = holds, exit 1 + VIOLATION line = a rule instance is positively violated, exit 2 + ANALYSIS-INCOMPLETE = the analysis could not decide (anchor vanished / idiom outside catalogue). "
          "Genuine defects found on the pinned tree were repaired by 'fix:' commits in /repo and are recorded in known_findings.json.")
 CLAIMED = {
+ "C20": {"technique": "regex analysis (pattern constant-folded, AST-checked for alphabet uniformity and group adjacency) + exhaustive shape enumeration against the extracted pattern; path/token-domain analysis of to_obis_tupple, __eq__/__hash__ and to_reduced_str",
+         "level": "other",
+         "text": "Exhaustive over the finite shape space (presence patterns x run lengths of both syntaxes): parse, rejection argument, eq/hash/C.D.E and the round trip of all 16 output templates are decided; digits are interchangeable for the pattern (checked on its AST), so shapes are exact representatives of all group values.",
+         "note": "Trusted: Python re and int() semantics; E-CONST/E-PATH. Code outside the recognised idioms (int(g) / int(g) if g else None, f-string concatenation) gives exit 2."},
  "C05": {"technique": "path extraction of the per-line step of ModeDReader.read into a decision table compared with a reference line automaton; buffer-position typestate at the length guard; buffer-contract rules",
          "level": "other",
          "text": "Decides R1-R4: the length guard is evaluated where the buffer position is zero (never counts consumed lines) and its limit is >= 8191; the per-line step refines the reference automaton (readout built from exactly the kept lines, emitted once, back to hunt mode); pop returns LF-terminated lines and advances by their length; the chunk only extends the buffer. Delivery over all clean streams is an argument from these, not mechanised.",
